@@ -158,7 +158,7 @@ fn cp_case_g2<const N: usize>(ctx: &mut Ctx, idx: usize) {
 }
 
 pub fn run(ctx: &mut Ctx) {
-    let reps = if ctx.thorough() { 20 } else { 3 };
+    let reps = if ctx.thorough() { 60 } else { 3 };
     let mut idx = 0;
     for _ in 0..reps {
         for &n in NS.iter() {
